@@ -16,9 +16,10 @@ SPEC = {
     "lean_modules": ["Honeycomb.Props.C12"],
     "gen": ["grid"],
     "required_theorems": [
-        "C12_grid2_WF", "C12_grid2_beta2", "C12_grid2_faces", "C12_grid2_corners",
+        "C12_grid2_WF", "C12_grid2_beta2", "C12_grid2_darts", "C12_grid2_faces",
         "C12_split2_WF", "C12_hex3_WF", "C12_parse2_error_iff", "C12_parse3_error_iff",
-        "C12_parse2_forms_agree", "C12_parse3_forms_agree",
+        "C12_parse2_forms_agree", "C12_parse3_forms_agree", "C12_build2_forms_agree", "C12_build3_forms_agree",
+        "C12_build2_zero_count_panics", "C12_zero_count_fails",
     ],
     "trusted_base": [
         "Lean 4.33 kernel; axioms propext, Classical.choice, Quot.sound only",
